@@ -132,9 +132,10 @@ IsNil(v) == v.k = "nil"
 
 \* --------------------------------------------------------------- equality
 \* C09: numbers by value across int/float, strings by bytes, nil only nil,
-\* arrays element-wise, unlike kinds never equal.  Equality of two maps is
-\* decided only as far as reflexivity demands (identical maps are equal);
-\* ranges likewise.
+\* arrays element-wise, unlike kinds never equal.  Two maps: identical maps
+\* are equal (reflexivity); maps with different key sets, or with a key whose
+\* two values are definitely unequal, are not; anything between is left open
+\* ({k: 1} vs {k: 1.0}).  Ranges: decided only as far as reflexivity demands.
 RECURSIVE Eq3(_, _)
 Eq3(a, b) ==
   IF IsUnspec(a) \/ IsUnspec(b) THEN "u"
@@ -146,7 +147,11 @@ Eq3(a, b) ==
          [] a.k = "arr" -> IF NilFree(a) \/ NilFree(b) THEN "u"
                            ELSE IF Len(a.v) # Len(b.v) THEN "f"
                            ELSE AllT3([i \in 1..Len(a.v) |-> Eq3(a.v[i], b.v[i])])
-         [] a.k = "map" -> IF Same(a, b) THEN "t" ELSE "u"
+         [] a.k = "map" -> IF Same(a, b) THEN "t"
+                           ELSE IF {a.v[i][1] : i \in 1..Len(a.v)} # {b.v[i][1] : i \in 1..Len(b.v)} THEN "f"
+                           ELSE IF \E i \in 1..Len(a.v), j \in 1..Len(b.v) :
+                                     a.v[i][1] = b.v[j][1] /\ Eq3(a.v[i][2], b.v[j][2]) = "f" THEN "f"
+                           ELSE "u"
          [] a.k = "range" -> IF Same(a, b) THEN "t" ELSE "u"
          [] OTHER -> "u"
 
